@@ -27,6 +27,15 @@ Search (property oracle, independent of the model; works on the RAW snippet text
   * new user keys with upper-case letters (cased_key), property and raw bodies, and the user's keywords typed after them;
   * user tables supplied through the GLOBAL config (type section, syntax section, call config, every combination; see
     layered_stream): oracle only, the model is compared on the merged table for a few configurations.
+  * HOW THE LIBRARY IS CALLED (harness/c06_calls.py), oracle only:
+    CONFIG SHAPES (shape_stream, layered_stream): optional keys of the config left out vs. written out with their default
+    (`syntax` for the default stylesheet syntax css, `options`, `snippets`, `context`), global config left out / {} /
+    given, routes expand(abbr, dict[, global]) / expand(abbr, Config(..)) / expand_stylesheet(abbr, Config(..));
+    CALL SEQUENCES (sequence_stream): one reused Config object (with / without `cache`) or config dicts sharing one
+    cache dict; earlier calls type every kind of value after a key (keyword prefixes, listed function keywords with
+    explicit arguments, numbers, colours, strings, `!`, several properties, malformed abbreviations), then the checked call
+    must satisfy the statement exactly as it does on its own.  A failing sequence is minimised (delta debugging over the
+    earlier calls) and written to the replay file.
 Tie: every case also goes through the Coq model of the whole pipeline (output string compared; for the value stream the
 callback events -- text and field invocations with offset, line, column -- of run/StyleEvents.v)."""
 import glob
@@ -38,6 +47,7 @@ import common
 import style_util as su
 import css_stream_util as cu
 import cssvalues_gen as vg
+import c06_calls as cc
 from style_util import Cfg
 
 RE_PROP = re.compile(r'^([a-z-]+)(?:\s*:\s*([^\n\r;]+?);*)?$')
@@ -600,7 +610,28 @@ def run(ctx):
         'that do not mention snippets; every user key, every built-in key only the noise overrides and 4 built-in keys are typed; '
         'the expected table is the built-in one updated in the documented order type section < syntax section < call.  The Coq model '
         'has no global layers: these cases are judged by the oracle, and for 4 (quick) / 21 (thorough) multi-layer configurations '
-        'the model is run on the merged table as its user table and compared.  '
+        'the model is run on the merged table as its user table and compared.  Every layered configuration is written in a random '
+        'CONFIG SHAPE (see below); for css (the default stylesheet syntax) each of the 7 layer subsets runs twice: `syntax` written '
+        'and `syntax` left out.  '
+        'CONFIG SHAPES (oracle only; the model sees the resolved configuration, which is the same): optional config keys left out '
+        'vs. written with their default -- `syntax` (css may be left out), `options`, `snippets` ({}), `context` (None) --, global '
+        'config left out / {} / given, routes expand(abbr, dict[, global]) / expand(abbr, Config(dict, global)) / '
+        'expand_stylesheet(abbr, Config(dict, global)): the bare config {type: stylesheet} with every built-in key and the listed '
+        'keywords (a rotating third quick / all thorough); the three routes x 4 scopes with `syntax` left out: every built-in key and '
+        'keywords in rotation; 4 (quick) / 30 (thorough) random user tables in random shapes (3 of 4 without `syntax`) with every '
+        'user key, the user\'s keywords and 6 built-in keys.  '
+        'CALL SEQUENCES (oracle only; the model is a function of (configuration, abbreviation)): sessions = ONE Config object reused '
+        '(with a cache dict / without) or config dicts (syntax, scope, callback varied) sharing one cache dict.  Sweep session(s) '
+        '(quick: config-object css; thorough: + shared-cache css/scss, config-object stylus, config-object without cache): EARLIER '
+        'calls = for every built-in key one typed value of a random class {number, numbers, colour, !important, string, unlisted '
+        'call, keyword prefix, keyword in full, several keywords, several properties, malformed (raises), bare key} plus, for every '
+        'function keyword a snippet lists, one call giving it EXPLICIT ARGUMENTS (name typed in full / as a prefix / first letter / '
+        'other case, 1-4 arguments of 1-3 tokens); THEN every key and every listed dash-free keyword after `:` and `-` (one letter '
+        'case in rotation quick, all five thorough) is checked.  12 (quick) / 120 (thorough) random sessions of 25-60 calls focused '
+        'on 3-9 keys (user keys, keys listing function keywords, random keys), earlier and checked calls mixed, 40%% with a random '
+        'user table, scopes none/@@global/@@property/@@section, both callbacks, shared-cache sessions with a call under ANOTHER '
+        'user table in between.  A checked call that fails only after earlier calls is reported with the earlier calls minimised by '
+        'delta debugging (replay re-runs the sequence in a fresh session).  '
         'Oracle: raw snippet text vs output (see module docstring).  Tie: output string of the Coq model; callback events for the '
         'value stream.  Non-trivial: every case; distinct by (configuration, abbreviation).')
     cases = gen(ctx)
@@ -625,6 +656,8 @@ def run(ctx):
     shared_cache_scopes(ctx, cases)
     value_stream(ctx, ok, {syn: live_table(syn) for syn in VALUE_SYNTAXES})
     layered_stream(ctx, ok, {syn: live_table(syn) for syn in su.SYNTAXES})
+    shape_stream(ctx, {syn: live_table(syn) for syn in su.SYNTAXES})
+    sequence_stream(ctx, {syn: live_table(syn) for syn in su.SYNTAXES})
     for (cfg, s, check, tag, fkey), r in list(zip(cases, impl))[-5:]:
         ctx.sample({'input': s, 'config': cfg.to_json(), 'impl': repr(r)[:160]})
     runner = su.ImplRunner()
@@ -876,16 +909,11 @@ def layered_effective(base, layers):
     return eff, merged
 
 
-def impl_layered(abbr, cfg, glob, call_snippets, cache=None):
-    from emmet import expand
-    import copy
-    conf = Cfg(cfg.syntax, cfg.options, call_snippets, cfg.context, cfg.tabstop).impl_config()
-    if cache is not None:
-        conf['cache'] = cache
-    try:
-        return ('ok', expand(abbr, conf, copy.deepcopy(glob)))
-    except Exception as e:
-        return su.classify_exc(e, len(abbr))
+def impl_layered(abbr, cfg, glob, call_snippets, cache=None, shape=None):
+    """expand(abbr, <call config written in `shape`>, global config) through the route the shape names (default: every
+    key spelled out, expand(abbr, dict, global))"""
+    return cc.call_shaped(abbr, Cfg(cfg.syntax, cfg.options, {}, cfg.context, cfg.tabstop), shape or cc.DEFAULT_SHAPE, glob,
+                          dict(call_snippets or {}), cache)
 
 
 def layered_stream(ctx, ok, tables):
@@ -897,39 +925,48 @@ def layered_stream(ctx, ok, tables):
     for rnd in range(rounds):
         for si, syn in enumerate(su.SYNTAXES):
             base = tables[syn]
+            # the call config written out in full, and -- for the default stylesheet syntax, which a config need not name --
+            # with the `syntax` key left out (cc.DEFAULT_STYLESHEET_SYNTAX); the other optional keys and the call route
+            # (expand with a dict / with a Config object / expand_stylesheet) are drawn per configuration
+            syntax_shapes = ('explicit', 'omitted') if syn == cc.DEFAULT_STYLESHEET_SYNTAX else ('explicit',)
             for subset in LAYER_SUBSETS:
-                layers, noise, noise_only = rand_layers(rng, syn, base, subset)
-                glob = layered_global(rng, syn, layers, noise)
-                eff, merged = layered_effective(base, layers)
-                scope = None if rng.random() < 0.7 else rng.choice(SCOPES)
-                cfg = Cfg(syntax=syn, snippets=merged, context=scope, tabstop=True)
-                keys = list(merged) + noise_only + rng.sample(sorted(base), 4)
-                for k in dict.fromkeys(keys):
-                    cases.append((cfg, k, ('key', eff, k), glob, layers.get('call', {}), ci, '+'.join(subset)))
-                ci += 1
+                for syntax_shape in syntax_shapes:
+                    layers, noise, noise_only = rand_layers(rng, syn, base, subset)
+                    glob = layered_global(rng, syn, layers, noise)
+                    eff, merged = layered_effective(base, layers)
+                    scope = None if rng.random() < 0.7 else rng.choice(SCOPES)
+                    cfg = Cfg(syntax=syn, snippets=merged, context=scope, tabstop=rng.random() < 0.7)
+                    how = cc.rand_shape(rng, cfg, syntax=syntax_shape,
+                                        route=None if syntax_shape == 'omitted' or rng.random() < 0.4 else 'dict')
+                    keys = list(merged) + noise_only + rng.sample(sorted(base), 4)
+                    for k in dict.fromkeys(keys):
+                        cases.append((cfg, k, ('key', eff, k), glob, layers.get('call', {}), ci, '+'.join(subset), how))
+                    ci += 1
     caches = {}
     results = []
-    for cfg, k, check, glob, call, n, shape in cases:
-        r = impl_layered(k, cfg, glob, call, caches.setdefault(n, {}))
+    for cfg, k, check, glob, call, n, shape, how in cases:
+        r = impl_layered(k, cfg, glob, call, caches.setdefault(n, {}), how)
         results.append(r)
         ctx.count_eval()
         ctx.nontrivial(('layers', n, cfg.key(), k))
         ctx.cover('c06:global-config-layers:' + shape)
+        ctx.cover('c06:global-config-layers:config-shape:' + cc.shape_name(how))
         ctx.cover('c06:syntax:' + cfg.syntax)
         bad = apply_check(check, cfg, r)
         if bad:
-            r2 = impl_layered(k, cfg, glob, call, None)
+            r2 = impl_layered(k, cfg, glob, call, None, how)
             bad = apply_check(check, cfg, r2)
             if bad:
                 key = bad.key if isinstance(bad, Finding) else listed_class(cfg.to_json(), k, None, [call] + [v.get('snippets') for v in (glob or {}).values() if isinstance(v, dict)]) or 'c06:layers:%s:%s:%s' % (shape, cfg.key(), k)
-                ctx.property_failure(key, 'stylesheet expand(%r, %s, global_config=%r): %s' % (
-                    k, dict(cfg.to_json(), snippets=call), glob, bad),
-                    {'input': k, 'config': dict(cfg.to_json(), snippets=call), 'global_config': glob, 'check': ['layered'],
+                written = cc.shape_config(Cfg(cfg.syntax, cfg.options, {}, cfg.context, cfg.tabstop), how, call)
+                ctx.property_failure(key, 'stylesheet %s with abbr=%r, config=%s, global_config=%r: %s' % (
+                    cc.ROUTE_TEXT[how['route']], k, {x: ('<tabstop callback>' if x == 'options' and cfg.tabstop else y) for x, y in written.items()}, glob, bad),
+                    {'input': k, 'config': dict(cfg.to_json(), snippets=call), 'global_config': glob, 'check': ['layered'], 'shape': how,
                      'impl': repr(r2)[:300], 'why': str(bad)})
     ctx.cov['global_config_layer_cases'] = {'configurations': ci, 'cases': len(cases)}
     if cases:
-        cfg, k, check, glob, call, n, shape = cases[-1]
-        ctx.sample({'input': k, 'config': dict(cfg.to_json(), snippets=call), 'global_config': glob, 'impl': repr(results[-1])[:160]})
+        cfg, k, check, glob, call, n, shape, how = cases[-1]
+        ctx.sample({'input': k, 'config': dict(cfg.to_json(), snippets=call), 'global_config': glob, 'shape': how, 'impl': repr(results[-1])[:160]})
     if not ok:
         return
     # the tie: the model has no global layers; it is given the table merged in the documented order as ITS user table
@@ -946,13 +983,302 @@ def layered_stream(ctx, ok, tables):
         if m != results[i]:
             dis += 1
             if dis <= 5:
-                cfg, k, check, glob, call, n, shape = cases[i]
+                cfg, k, check, glob, call, n, shape, how = cases[i]
                 ctx.say('DISAGREE css expand %r with global config %r, call snippets %r\n  impl  %r\n  model (merged table) %r' % (k, glob, call, results[i], m))
                 v = apply_check(check, cfg, results[i])
                 if not v or isinstance(v, Finding):
                     ctx.broken.append({'kind': 'correspondence', 'file': 'css-expand-global-layers', 'input': k, 'config': cfg.to_json(),
                                        'global_config': glob, 'impl': repr(results[i])[:300], 'model': repr(m)[:300]})
     ctx.cov['correspondence']['css_expand_global_layers_model'] = {'cases': len(chosen), 'configurations': nconf, 'disagreements': dis}
+
+
+# ---------------------------------------------------------------- HOW the library is called: the shape of the config
+# "Typing the key of a stylesheet snippet ..." does not depend on how much of the config the caller spells out: a config
+# that leaves `syntax` to its documented default (css), has no `options` / `snippets` / `context` key, is handed over as
+# a Config object or goes through expand_stylesheet describes the same configuration as the fully written dict.
+BARE_SHAPE = {'syntax': 'omitted', 'options': 'omitted', 'snippets': 'omitted', 'context': 'omitted', 'global': 'auto', 'route': 'dict'}
+
+
+def keyword_checks(table, k, rot=None, variants=(0,)):
+    """[(typed keyword, check, finding key)] for the dash-free keywords the snippet of `k` lists"""
+    kind = classify(table[k])
+    if kind[0] != 'prop':
+        return []
+    out = []
+    for kw, is_fn, listed in listed_keywords(kind[2]):
+        fk = KEY_DIGIT_KW if re.search(r'\d', kw) else None
+        vs = case_variants(kw)
+        for vi in variants:
+            v = vs[((rot or 0) + vi) % len(vs)]
+            out.append((v, ('kw', kind[1], kw, is_fn, listed), fk))
+    return out
+
+
+def report_plain(ctx, cfg, s, check, fkey, r, bad, extra=None, label='stylesheet expand'):
+    """a failing call that does not depend on anything but (configuration, abbreviation)"""
+    key = bad.key if isinstance(bad, Finding) else fkey if fkey else listed_class(cfg.to_json(), s) or 'c06:%s:%s' % (cfg.key(), s)
+    rp = {'input': s, 'config': cfg.to_json(), 'check': list(check[:1]) + [c for c in check[1:] if not isinstance(c, dict)],
+          'impl': repr(r)[:300], 'why': str(bad)}
+    rp.update(extra or {})
+    written = ''
+    if extra and 'shape' in extra:
+        written = ' written as %r' % ({k: ('<tabstop callback>' if k == 'options' and cfg.tabstop else v) for k, v in cc.shape_config(cfg, extra['shape']).items()},)
+    ctx.property_failure(key, '%s(%r) under %s%s: %s' % (label, s, cfg.to_json(), written, bad), rp)
+
+
+def shape_stream(ctx, tables):
+    rng = ctx.rng
+    quick = ctx.tier == 'quick'
+    syn = cc.DEFAULT_STYLESHEET_SYNTAX
+    t = tables[syn]
+    cases = []          # (cfg, shape, abbr, check, finding key, cache id)
+    # {'type': 'stylesheet'} and nothing else: every key, the listed keywords (a rotating third in the quick tier)
+    bare = Cfg(syntax=syn, tabstop=False)
+    n = 0
+    for k in t:
+        cases.append((bare, BARE_SHAPE, k, ('key', t, k), None, None))
+        for v, check, fk in keyword_checks(t, k, rot=n):
+            n += 1
+            if quick and n % 3:
+                continue
+            cases.append((bare, BARE_SHAPE, k + ':-'[n % 2] + v, check, fk, None))
+    # the other routes, syntax left out, every scope: every key, keywords in rotation
+    for ri, route in enumerate(cc.ROUTES):
+        for si, scope in enumerate(SCOPES):
+            if quick and route == 'dict' and scope is not None:
+                continue
+            cfg = Cfg(syntax=syn, context=scope, tabstop=bool((ri + si) % 2))
+            shape = dict(BARE_SHAPE, route=route, options='explicit' if cfg.tabstop else 'omitted',
+                         **{'global': rng.choice(['auto', 'empty']), 'context': 'none' if scope is None and rng.random() < 0.5 else 'omitted',
+                            'snippets': rng.choice(['omitted', 'empty'])})
+            cid = ('shape', route, scope)
+            for k in t:
+                cases.append((cfg, shape, k, ('key', t, k), None, cid))
+                if scope in (None, '@@property'):
+                    for v, check, fk in keyword_checks(t, k, rot=n):
+                        n += 1
+                        if n % (7 if quick else 2):
+                            continue
+                        cases.append((cfg, shape, k + ':-'[n % 2] + v, check, fk, cid))
+    # user tables in the call config, syntax left out / written, random other keys and routes
+    for ti in range(4 if quick else 30):
+        user = rand_user_table(rng, t)
+        tu = live_table(syn, user)
+        cfg = Cfg(syntax=syn, snippets=user, context=rng.choice([None, None] + SCOPES), tabstop=rng.random() < 0.5)
+        shape = cc.rand_shape(rng, cfg, syntax='omitted' if ti % 4 != 3 else 'explicit')
+        cid = ('shape-user', ti)
+        for k in user:
+            cases.append((cfg, shape, k, ('key', tu, k), None, cid))
+            if cfg.context is None and classify(user[k])[0] == 'prop':
+                kind = classify(user[k])
+                for kw, is_fn, listed in listed_keywords([a for a in kind[2] if '$' not in a]):
+                    if not re.search(r'\d', kw):
+                        cases.append((cfg, shape, k + rng.choice(':-') + rng.choice(case_variants(kw)), ('kw', kind[1], kw, is_fn, listed), None, cid))
+        for k in rng.sample(sorted(t), 6):
+            if k.lower() not in {u.lower() for u in user if u != k}:
+                cases.append((cfg, shape, k, ('key', tu, k), None, cid))
+    caches = {}
+    nbad = 0
+    for cfg, shape, s, check, fkey, cid in cases:
+        r = cc.call_shaped(s, cfg, shape, cache=None if cid is None else caches.setdefault(cid, {}))
+        ctx.count_eval()
+        ctx.nontrivial(('shape', json.dumps(shape, sort_keys=True), cfg.key(), s))
+        ctx.cover('c06:config-shape:' + cc.shape_name(shape))
+        ctx.cover('c06:config-shape:' + ('bare {type: stylesheet}' if cid is None else 'user-table' if cid[0] == 'shape-user' else 'built-in table'))
+        bad = apply_check(check, cfg, r)
+        if bad and cid is not None:
+            r = cc.call_shaped(s, cfg, shape)          # without the shared cache
+            bad = apply_check(check, cfg, r)
+        if bad:
+            nbad += 1
+            if nbad <= 40 or isinstance(bad, Finding) or fkey:
+                report_plain(ctx, cfg, s, check, fkey, r, bad, {'shape': shape}, 'stylesheet %s with abbr=' % cc.ROUTE_TEXT[shape['route']])
+    ctx.cov['config_shape_cases'] = len(cases)
+    if cases:
+        cfg, shape, s, check, fkey, cid = cases[-1]
+        ctx.sample({'input': s, 'config': cfg.to_json(), 'shape': shape})
+
+
+# ---------------------------------------------------------------- HOW the library is called: what was called before
+# The statement holds for EVERY call: whatever the same Config object, or another configuration sharing the caller's
+# `cache` dict, has expanded before.  A sequence is [earlier calls] + one checked call; the verdict on the checked call
+# is the one the oracle gives that call on its own.
+N_SEQ_REPORT = 4          # sequence-dependent failures that are minimised and reported per run
+SEQ_FAILS_PER_SESSION = 3
+
+
+def seq_json(kind, base, before):
+    bj = base.to_json()
+    return {'kind': kind, 'base': bj, 'before': [[a, None if c.to_json() == bj else c.to_json()] for a, c in before]}
+
+
+def seq_from_json(o):
+    base = Cfg.from_json(o.get('base', {}))
+    return o.get('kind', 'config-object'), base, [(a, base if c is None else Cfg.from_json(c)) for a, c in o.get('before', [])]
+
+
+class SeqState:
+    def __init__(self):
+        self.reported = 0
+        self.sessions = 0
+        self.calls = 0
+        self.checked = 0
+        self.dependent = 0
+
+
+def seq_failure(ctx, st, kind, base, history, s, cfg, check, fkey, r, bad):
+    """the checked call (s, cfg) failed after `history`; -> True when it is a failure of the sequence (not of the call alone)"""
+    fresh = su.impl_expand(s, cfg)
+    bad_fresh = apply_check(check, cfg, fresh)
+    if bad_fresh:
+        report_plain(ctx, cfg, s, check, fkey, fresh, bad_fresh)          # fails on its own: the sequence is not needed
+        return False
+    st.dependent += 1
+    if st.reported >= N_SEQ_REPORT:
+        return True
+    st.reported += 1
+
+    def fails(before):
+        return bool(apply_check(check, cfg, cc.run_sequence(kind, base, before, s, cfg)))
+    before = list(history)
+    if fails(before):
+        before = cc.minimise(before, fails)
+    r_min = cc.run_sequence(kind, base, before, s, cfg)
+    calls = ' ; '.join('expand(%r)' % a for a, _ in before[:6]) + (' ; ...' if len(before) > 6 else '')
+    ctx.property_failure(
+        'c06:sequence:%s:%s:%s' % (kind, cfg.key(), s),
+        'stylesheet expand(%r) under %s AFTER %d earlier call(s) [%s] through %s: %s -- the same call on a fresh configuration is right (%r)' % (
+            s, cfg.to_json(), len(before), calls,
+            'the same Config object' if kind != 'shared-cache' else 'configurations sharing one cache dict', bad, fresh),
+        {'input': s, 'config': cfg.to_json(), 'check': list(check[:1]) + [c for c in check[1:] if not isinstance(c, dict)],
+         'sequence': seq_json(kind, base, before), 'impl': repr(r_min)[:300], 'fresh': repr(fresh)[:300], 'why': str(bad)})
+    return True
+
+
+def snippet_keywords(v):
+    kind = classify(v)
+    return cc.keyword_names(kind[2]) if kind[0] == 'prop' else []
+
+
+def run_session(ctx, st, kind, base, steps):
+    """steps: iterable of ('noise', abbr, cfg, class) | ('check', abbr, cfg, check, finding key)"""
+    sess = cc.Session(kind, base)
+    history = []
+    fails = 0
+    st.sessions += 1
+    ctx.cover('c06:sequence:' + kind)
+    for step in steps:
+        what, s, cfg = step[0], step[1], step[2]
+        if kind != 'shared-cache':
+            cfg = base
+        r = sess.call(s, cfg)
+        st.calls += 1
+        if what == 'noise':
+            ctx.cover('c06:sequence-earlier-call:' + step[3])
+        else:
+            check, fkey = step[3], step[4]
+            st.checked += 1
+            ctx.count_eval()
+            ctx.nontrivial(('seq', st.sessions, len(history), s))
+            ctx.cover('c06:sequence-checked-call:' + ('key' if check[0] == 'key' else 'keyword'))
+            bad = apply_check(check, cfg, r)
+            if bad and seq_failure(ctx, st, kind, base, history, s, cfg, check, fkey, r, bad):
+                fails += 1
+                if fails >= SEQ_FAILS_PER_SESSION:
+                    break          # the session's state is spoilt; what follows adds nothing
+        history.append((s, cfg))
+    return history
+
+
+def sweep_steps(rng, table, cfgs, all_variants):
+    """EARLIER: for every key one typed value of a random kind and, for every function keyword its snippet lists, one call
+    that gives that keyword explicit arguments.  THEN: every key and every listed dash-free keyword after `:` and `-`."""
+    pick = lambda: rng.choice(cfgs)          # noqa
+    for k, v in table.items():
+        kws = snippet_keywords(v)
+        a, cls = cc.typed_values(rng, k, kws)
+        yield ('noise', a, pick(), cls)
+        for name, is_fn in kws:
+            if is_fn:
+                yield ('noise', cc.fn_call_typed(rng, k, name), pick(), 'listed-call-with-arguments')
+    n = 0
+    for k in table:
+        cfg = pick()
+        yield ('check', k, cfg, ('key', table, k), None)
+        n += 1
+        for vi in (range(5) if all_variants else (0,)):
+            for typed, check, fk in keyword_checks(table, k, rot=n, variants=(vi,)):
+                cfg = pick()
+                if cfg.context in (None, '@@property'):
+                    for conn in ':-':
+                        yield ('check', k + conn + typed, cfg, check, fk)
+
+
+def random_steps(rng, table, user, cfgs, length):
+    """focus on a few keys (so that earlier and checked calls meet in the same snippets), earlier and checked calls mixed"""
+    with_fn = [k for k, v in table.items() if any(f for _, f in snippet_keywords(v))]
+    focus = list(user)[:3] + rng.sample(with_fn, min(len(with_fn), rng.randint(1, 3))) + rng.sample(sorted(table), rng.randint(1, 3))
+    focus = [k for k in dict.fromkeys(focus) if k.lower() not in {u.lower() for u in user if u != k}]
+    for _ in range(length):
+        k = rng.choice(focus)
+        cfg = rng.choice(cfgs)
+        if rng.random() < 0.5:
+            a, cls = cc.typed_values(rng, k, snippet_keywords(table[k]))
+            yield ('noise', a, cfg, cls)
+            continue
+        kind = classify(table[k])
+        if kind[0] == 'prop' and cfg.context in (None, '@@property') and rng.random() < 0.7:
+            alts = kind[2] if k not in user else [a for a in kind[2] if '$' not in a]
+            kws = [x for x in listed_keywords(alts) if k not in user or not re.search(r'\d', x[0])]
+            if kws:
+                kw, is_fn, listed = rng.choice(kws)
+                yield ('check', k + rng.choice(':-') + rng.choice(case_variants(kw)), cfg, ('kw', kind[1], kw, is_fn, listed),
+                       KEY_DIGIT_KW if re.search(r'\d', kw) else None)
+                continue
+        yield ('check', k, cfg, ('key', table, k), None)
+
+
+def sequence_stream(ctx, tables):
+    rng = ctx.rng
+    quick = ctx.tier == 'quick'
+    st = SeqState()
+    # 1. sweeps over the whole built-in table
+    plan = [('config-object', 'css')] if quick else [('config-object', 'css'), ('shared-cache', 'css'), ('config-object', 'stylus'),
+                                                     ('config-object-no-cache', 'css'), ('shared-cache', 'scss')]
+    for kind, syn in plan:
+        base = Cfg(syntax=syn, tabstop=True)
+        cfgs = [base]
+        if kind == 'shared-cache':
+            cfgs = [Cfg(syntax=x, context=sc, tabstop=tb) for x in su.SYNTAXES if tables[x] == tables[syn]
+                    for sc in (None, None, '@@property', '@@global') for tb in (True, False)]
+        if kind == 'config-object-no-cache' and quick:
+            continue
+        run_session(ctx, st, kind, base, sweep_steps(rng, tables[syn], cfgs, not quick))
+    # 2. random sessions: every kind, user tables, scopes, callbacks
+    for i in range(12 if quick else 120):
+        kind = cc.SESSION_KINDS[i % 3] if i % 4 else 'shared-cache'
+        syn = rng.choice(su.SYNTAXES)
+        user = rand_user_table(rng, tables[syn]) if rng.random() < 0.4 else {}
+        user.pop(GRADIENT_KEY, None)
+        table = live_table(syn, user)
+        base = Cfg(syntax=syn, snippets=user, context=rng.choice([None, None, None, '@@property', '@@global', '@@section']), tabstop=rng.random() < 0.5)
+        cfgs = [base]
+        if kind == 'shared-cache':
+            # the same user table under other syntaxes / scopes / callbacks (the built-in part of the table is the same for
+            # every stylesheet syntax: checked here, not assumed)
+            for _ in range(3):
+                x = rng.choice(su.SYNTAXES)
+                if live_table(x, user) == table:
+                    cfgs.append(Cfg(syntax=x, snippets=user, context=rng.choice([None, None, '@@property', '@@global']), tabstop=rng.random() < 0.5))
+        steps = list(random_steps(rng, table, user, cfgs, rng.randint(25, 60) if kind != 'config-object-no-cache' else rng.randint(10, 20)))
+        if kind == 'shared-cache' and rng.random() < 0.5:
+            # a call with ANOTHER table through the same cache in between (the cache is rebuilt for it and for the next call)
+            other = Cfg(syntax=rng.choice(su.SYNTAXES), snippets=rand_user_table(rng, tables[syn]), tabstop=True)
+            for _ in range(rng.randint(1, 3)):
+                k = rng.choice(sorted(tables[syn]))
+                steps.insert(rng.randrange(len(steps) + 1), ('noise', cc.typed_values(rng, k, snippet_keywords(tables[syn][k]))[0], other, 'other-table-through-the-same-cache'))
+        run_session(ctx, st, kind, base, steps)
+    ctx.cov['call_sequences'] = {'sessions': st.sessions, 'calls': st.calls, 'checked_calls': st.checked, 'sequence_dependent_failures': st.dependent}
 
 
 def value_verdict(cfg, k, src, kind, r):
@@ -975,11 +1301,11 @@ def replay(ctx, obj):
         layers = {'type': glob.get('stylesheet', {}).get('snippets', {}), 'syntax': glob.get(cfg.syntax, {}).get('snippets', {}),
                   'call': cfg.snippets}
         eff, merged = layered_effective(live_table(cfg.syntax), layers)
-        r = impl_layered(s, cfg, glob, cfg.snippets, None)
+        r = impl_layered(s, cfg, glob, cfg.snippets, None, rp.get('shape'))
         bad = apply_check(('key', eff, s), cfg, r)
         known = isinstance(bad, Finding) and ctx.match_known(bad.key)
-        print('css expand(%r, %s, global_config=%r) -> %r : %s%s' % (s, cfg.to_json(), glob, r, bad or 'property holds',
-                                                                       ' (listed finding %s)' % bad.key if known else ''))
+        print('css expand(%r, %s, global_config=%r)%s -> %r : %s%s' % (s, cfg.to_json(), glob, ' written as %s' % rp['shape'] if rp.get('shape') else '',
+                                                                         r, bad or 'property holds', ' (listed finding %s)' % bad.key if known else ''))
         return 1 if bad and not known else 0
     if rp.get('check', [''])[0] == 'value':
         src = cfg.snippets.get(s, '')
@@ -1000,6 +1326,14 @@ def replay(ctx, obj):
     if 'shared_cache_first_scope' in rp:
         r = shared_cache_run(s, cfg, rp['shared_cache_first_scope'])
         print('one cache dict first used under scope %r, then:' % (rp['shared_cache_first_scope'],))
+    elif 'sequence' in rp:
+        kind, base, before = seq_from_json(rp['sequence'])
+        r = cc.run_sequence(kind, base, before, s, cfg)
+        print('%s; earlier calls: %s; then:' % ('one Config object %s reused' % base.to_json() if kind != 'shared-cache' else 'config dicts sharing one cache dict',
+                                                ', '.join('expand(%r)' % a for a, _ in before)))
+    elif 'shape' in rp:
+        r = cc.call_shaped(s, cfg, rp['shape'])
+        print('config written as %s (%r):' % (rp['shape'], {k: v for k, v in cc.shape_config(cfg, rp['shape']).items() if k != 'options'}))
     else:
         r = su.impl_expand(s, cfg)
     bad = apply_check(check, cfg, r)
